@@ -454,6 +454,25 @@ def grid_cases(tier, seed):
                 yield {"cfg": cfg, "state": state, "op": r}
 
 
+def extreme_score_cases(tier, seed):
+    """keys whose rendezvous score for the one server is the smallest or the greatest a 32-bit hash can give (0, 1, 2**31, 2**32-1;
+    found by solving the hash for its last block, vlib/refhash.py): a one-server ring still places every key on that server"""
+    from vlib import refhash
+    names = {None: "mc1:11211"}
+    for sp, (addr, _spec) in SERVER_SPELLINGS.items():
+        names[sp] = addr if isinstance(addr, str) else "%s:%s" % addr
+    for sp, node in sorted(names.items(), key=repr):
+        for target in (0, 1, 2 ** 31, 2 ** 32 - 1):
+            key = refhash.preimage_suffix((node + "-").encode(), target).decode()
+            for pfx in (b"", b"p:"):
+                cfg = dict({"key_prefix": pfx}, **({"server": sp} if sp else {}))
+                for state in ("hit", "miss"):
+                    for r in ({"op": "get", "key": key}, {"op": "set", "key": key, "value": b"v", "noreply": False}, {"op": "get_many", "keys": [key, "k"]},
+                              {"op": "set_many", "values": {key: b"1"}, "noreply": False}, {"op": "delete", "key": key, "noreply": False},
+                              {"op": "incr", "key": key, "delta": 1}, {"op": "touch", "key": key, "expire": 5, "noreply": False}, {"op": "gets", "key": key}):
+                        yield {"cfg": cfg, "state": state, "op": r}
+
+
 def random_strategy(tier):
     cfg = st.fixed_dictionaries({}, optional={
         "key_prefix": st.sampled_from([b"", b"p:", "p:", b"\x80\xff", "x" * 100]),
@@ -548,6 +567,7 @@ def sequence_strategy(tier):
 PARTS = [
     Part("life-cycle", "enum", check_lifecycle, cases=lifecycle_cases, exhaustive=True),
     Part("grid", "enum", check, cases=grid_cases, exhaustive=True),
+    Part("keys-with-extreme-scores", "enum", check, cases=extreme_score_cases, exhaustive=True),
     Part("random", "hyp", check, strategy=random_strategy,
          examples={"quick": 300, "thorough": 10000}, shards={"quick": 6, "thorough": 16}),
     Part("sequences", "enum", check_sequence, cases=sequence_cases, exhaustive=True),
